@@ -582,7 +582,7 @@ func runC44(outer *testing.T) func(t rapid.TB, c c44Case, rec *vx.Case) {
 		knownSeen := map[string]string{}
 		withImport, nt := runHistory(outer, t, rec, c, true, true, knownSeen)
 		rec.Class("links=%v", c.H.Links)
-		rec.Class("extras=%s", extrasLabel(c.Extras))
+		classExtras(rec, c.Extras)
 		if c.Continue {
 			rec.Class("continuation")
 			control, _ := runHistory(outer, t, rec, c, false, false, map[string]string{})
@@ -608,6 +608,17 @@ func runC44(outer *testing.T) func(t rapid.TB, c c44Case, rec *vx.Case) {
 			break
 		}
 		rec.NonTrivialIf(nt)
+	}
+}
+
+// classExtras tags the case with one class per kind of application activity.
+func classExtras(rec *vx.Case, e Extras) {
+	if l := extrasLabel(e); l == "none" {
+		rec.Class("extra:none")
+	} else {
+		for _, x := range strings.Split(l, "+") {
+			rec.Class("extra:%s", x)
+		}
 	}
 }
 
@@ -643,7 +654,7 @@ func TestC44(t *testing.T) {
 		Rule: "pktsim lifecycle histories (v1-unordered / v1-ordered / v2 / v2-alias links, async receives, closes) plus optional ICS-20 transfers (v1 and v2-over-alias), a rate limit and an ICA registration; " +
 			"every module's export/wipe/import round trip is evaluated on both chains after EVERY op, the drawn export point is additionally applied to the live state and the history continued against a control run; " +
 			"non-trivial = at the drawn export point >=1 packet is in flight on an alias link and >=1 on a non-alias link; distinct by full case",
-		MinNTFrac: 0.15,
+		MinNTFrac: 0.3,
 		Assumptions: []string{
 			"keys written by the harness's scripted mock applications into the gmp store (prefix sim.AppKey) are not module state and are excluded",
 			"lost keys are attributed to the alias known-finding signatures only by exact key derived from a channel id that carries an alias mapping; in the continuation those exact keys are restored after the import so the search continues past the finding",
